@@ -7,12 +7,14 @@ import shutil
 from concurrent.futures import ThreadPoolExecutor
 
 COQ_DIR = "/verif/coq"
-HEADER = """From Coq Require Import QArith List String.
-From SM Require Import Num Graph Engine Expr Blocks Sym.
-Import ListNotations.
+_TAIL = """Import ListNotations.
 Set Printing Width 1000000.
 Set Printing Depth 1000000.
 """
+HEADER = ("From Coq Require Import QArith List String.\n"
+          "From SM Require Import Num Graph Engine Expr Types Blocks Sym.\n" + _TAIL)
+HEADER_SPEC = ("From Coq Require Import QArith List String.\n"
+               "From SM Require Import Num Graph Expr Types Spec SpecSym.\n" + _TAIL)
 
 STR_RE = re.compile(r'"([^"]*)"')
 
@@ -48,8 +50,12 @@ def parse_evals(stdout):
     return results
 
 
-def eval_cases(case_terms, header=HEADER, shard=40, jobs=12, timeout=900):
+def eval_cases(case_terms, header=HEADER, shard=None, jobs=14, timeout=900):
     """case_terms: list of Coq terms of type list string. Returns list of list[str]."""
+    if not case_terms:
+        return []
+    if shard is None:
+        shard = max(3, -(-len(case_terms) // jobs))
     workdir = tempfile.mkdtemp(prefix="smcases_", dir=os.environ.get("VERIF_TMP", "/tmp"))
     try:
         shards = [case_terms[i:i + shard] for i in range(0, len(case_terms), shard)]
